@@ -127,34 +127,36 @@ end
 
 def emptyTree : Node := .mk .static [] [] none [] 0 [] none none
 
-/-- the scan of `Router.insert` from index `i` (fuel bounds the number of loop iterations) -/
+/-- the scan of `Router.insert`.  `done` is the part of the path already scanned, in the form the
+    loop has given it so far (escaping backslashes removed, parameter names cut out), `todo` the
+    part still to scan; Go's index `i` is `done.length` and its `path` is `done ++ todo`.  A colon is
+    literal when the byte before it is a backslash (Go looks back and deletes the backslash; here the
+    backslash is dropped when it is met).  Fuel bounds the number of iterations. -/
 def insertLoop (method : Str) (ppath : Str) (hid : Nat) :
-    Nat → Node → Str → Nat → List Str → Node × Str × List Str
-  | 0, t, path, _, pnames => (t, path, pnames)
-  | fuel + 1, t, path, i, pnames =>
-    if i < path.length then
-      let ch := path.getD i ' '
-      if ch = ':' then
-        if i > 0 ∧ path.getD (i - 1) ' ' = '\\' then
-          -- escaped colon: drop the backslash, keep the colon as literal text
-          insertLoop method ppath hid fuel t (path.take (i - 1) ++ path.drop i) i pnames
-        else
-          let j := i + 1
-          let t := insertAt method (path.take i) .static none t
-          let e := i + ((path.drop i).takeWhile (· ≠ '/')).length
-          let pnames := pnames ++ [(path.drop j).take (e - j)]
-          let path := path.take j ++ path.drop e
-          let t :=
-            if j = path.length then insertAt method (path.take j) .param (some ⟨ppath, pnames, hid⟩) t
-            else insertAt method (path.take j) .param none t
-          insertLoop method ppath hid fuel t path (j + 1) pnames
-      else if ch = '*' then
-        let t := insertAt method (path.take i) .static none t
-        let pnames := pnames ++ ["*".toList]
-        let t := insertAt method (path.take (i + 1)) .any (some ⟨ppath, pnames, hid⟩) t
-        insertLoop method ppath hid fuel t path (i + 1) pnames
-      else insertLoop method ppath hid fuel t path (i + 1) pnames
-    else (t, path, pnames)
+    Nat → Node → Str → Str → List Str → Node × Str × List Str
+  | 0, t, done, _, pnames => (t, done, pnames)
+  | _ + 1, t, done, [], pnames => (t, done, pnames)
+  | fuel + 1, t, done, c :: rest, pnames =>
+    if c = '\\' ∧ rest.head? = some ':' then
+      -- escaped colon: drop the backslash, keep the colon as literal text
+      insertLoop method ppath hid fuel t (done ++ [':']) rest.tail pnames
+    else if c = ':' then
+      let t := insertAt method done .static none t
+      let pnames := pnames ++ [rest.takeWhile (· ≠ '/')]
+      let rest' := rest.dropWhile (· ≠ '/')
+      let t :=
+        if rest'.isEmpty then insertAt method (done ++ [':']) .param (some ⟨ppath, pnames, hid⟩) t
+        else insertAt method (done ++ [':']) .param none t
+      -- Go continues at `j + 1`: the byte that ended the name is not examined
+      match rest' with
+      | [] => (t, done ++ [':'], pnames)
+      | d :: r => insertLoop method ppath hid fuel t (done ++ [':', d]) r pnames
+    else if c = '*' then
+      let t := insertAt method done .static none t
+      let pnames := pnames ++ ["*".toList]
+      let t := insertAt method (done ++ ['*']) .any (some ⟨ppath, pnames, hid⟩) t
+      insertLoop method ppath hid fuel t (done ++ ['*']) rest pnames
+    else insertLoop method ppath hid fuel t (done ++ [c]) rest pnames
 
 /-- `normalizePathSlash` -/
 def normalizeSlash (p : Str) : Str :=
@@ -165,13 +167,13 @@ def normalizeSlash (p : Str) : Str :=
 /-- `Router.insert` (handler non-nil) -/
 def insertRoute (tree : Node) (method : Str) (path0 : Str) (hid : Nat) : Node :=
   let ppath := normalizeSlash path0
-  let (t, path, pnames) := insertLoop method ppath hid (ppath.length + 2) tree ppath 0 []
+  let (t, path, pnames) := insertLoop method ppath hid (ppath.length + 2) tree [] ppath []
   insertAt method path .static (some ⟨ppath, pnames, hid⟩) t
 
 /-- number of parameter names of a registered pattern (what `insertNode` feeds `maxParam`) -/
 def paramCountOf (path0 : Str) : Nat :=
   let ppath := normalizeSlash path0
-  (insertLoop [] ppath 0 (ppath.length + 2) emptyTree ppath 0 []).2.2.length
+  (insertLoop [] ppath 0 (ppath.length + 2) emptyTree [] ppath []).2.2.length
 
 structure Route where
   method : Str
